@@ -26,6 +26,7 @@ ASSUMPTIONS = [
 ]
 SAMPLE_EVERY = 211
 PARAMS = ["a", "b", "c"]
+NAME_POOL = ["BusStopInfo", "SceneChange", "QuickStartGuide", "RefreshFinishedList", "StatusUpdatedView", "NonStop"]
 VAL = {"a": 1, "b": 2, "c": 3}
 
 
@@ -51,12 +52,18 @@ def gen_program(rng, flows=None):
     if flows is None:
         n = rng.randint(2, 5)
         flows = []
+        alias = {}
+        if rng.random() < 0.35:
+            alias = dict(zip(rng.sample(["A", "B", "C"], 2), rng.sample(NAME_POOL, 2)))
         for i in range(n):
             S = [p for p in PARAMS if rng.random() < 0.6]
             mismatch = bool(rng.random() < 0.2 and S)
             prio = rng.choice([None, None, None, 0.9, 0.5])
             loop = rng.choice([None, None, None, "other"])
             act = rng.choice(["A", "B", "C"]) if rng.random() < 0.5 else "U%d" % i
+            if act in alias:
+                # legal action type names that merely CONTAIN the words the event names are built from
+                act = alias[act]
             aarg = rng.choice([None, None, 1, 2])
             flows.append(dict(i=i, S=S, mismatch=mismatch, prio=prio, loop=loop, act=act, aarg=aarg))
     ev = {"type": "Ev", "a": 1, "b": 2, "c": 3}
@@ -112,7 +119,7 @@ def cases(tier, seed):
                 continue  # every third vector in quick, all in thorough
             i += 1
             yield {"id": i, "fam": "vec", "vec": list(combo), "seed": base + i}
-    for k in range(2500 if tier == "quick" else 40000):
+    for k in range(6000 if tier == "quick" else 60000):
         i += 1
         yield {"id": i, "fam": "rand", "seed": base + k}
 
